@@ -746,8 +746,17 @@ pub fn check_tampered(scn: &Scenario, base: &Base, dev: &Dev, tr: &Trace) -> Res
 			if base.unit_start(*dir, u) != *at && *at != base.len(*dir) {
 				return Err(Failure::new("setup", "splice offsets must be unit boundaries"));
 			}
-			let tail_delete = ins.is_empty() && at + del >= base.len(*dir);
-			(*dir, u, !tail_delete, true)
+			// A drop can only be demanded once the receiver holds enough bytes beyond the splice
+			// point to complete the unit it is waiting for there (an act or an 18-byte header).
+			let awaited = match (*dir, u) {
+				(A, 0) => 50,
+				(A, 1) => 66,
+				(B, 0) => 50,
+				_ => 18,
+			};
+			let _ = del;
+			let got_after = tr.rx_len[*dir].saturating_sub(*at);
+			(*dir, u, got_after >= awaited || (!ins.is_empty() && ins.len() >= awaited), true)
 		},
 		_ => return Err(Failure::new("setup", "not a manipulation")),
 	};
